@@ -325,7 +325,15 @@ def audit_round(rec):
                           ("immediate_outdoor_crops percent (unrounded)", rec["imm_pct"]),
                           ("immediate_outdoor_crops_kcals_equivalent", o["k"][7]),
                           ("csv column immediate_outdoor_crops", rec.get("csv_imm") or [])):
-        negm = [m for m, x in enumerate(series) if x < 0]
+        # a solver returns values within its feasibility tolerance (about 1e-7 billion kcals, also on the wrong side of 0):
+        # negative means negative beyond that, expressed in the unit of each series (all four are the same quantity)
+        tol_bpf = 1e-9 * sc + 1e-6 / km
+        top_e = max([abs(x) for x in e_imm] + [0.0])
+        top_s = max([abs(x) for x in series] + [0.0])
+        tol = tol_bpf * (top_s / top_e if top_e > tol_bpf else 0.0) + 1e-9 * top_s
+        if series is e_imm:
+            tol = tol_bpf
+        negm = [m for m, x in enumerate(series) if x < -tol]
         if negm:
             fail("crop-split-negative", f"{label} negative in {len(negm)} months, e.g. month {negm[0]}: {series[negm[0]]!r} "
                                         f"(min {min(series)!r})")
